@@ -59,6 +59,11 @@ type namedF float64
 type namedI int
 type namedS string
 
+type hooks struct {
+	f func(int) int
+	g func() string
+}
+
 type pair struct {
 	a   int
 	arr [3]int
@@ -214,6 +219,13 @@ var ExecKernels = []ExecKernel{
 	{Family: "unlambda", Body: "h := func(x int) string { return fmt.Sprint(x) }\nk := func(z string) string { return strings.ToUpper(z) }\nr1 = h(a) + k(s)", Focus: []string{"a", "s"}},
 	{Family: "unlambda", Body: "h := func(int) int { return tr(\"h\", 7) }\nk := func(_ int) int { return tr(\"k\", 8) }\nr0 = h(a) + k(b)"},
 	{Family: "unlambda", Body: "var fnv func(int) int\nh := func(x int) int { return fnv(x) }\nfnv = func(x int) int { return x + 1 }\nr0 = h(a)"},
+	{Family: "unlambda", Body: "hk := hooks{f: func(x int) int { return x + 1 }}\nh := func(x int) int { return hk.f(x) }\nhk.f = func(x int) int { return x * 2 }\nr0 = h(a)"},
+	{Family: "unlambda", Body: "var hk hooks\nh := func(x int) int { return hk.f(x) }\nk := func() string { return hk.g() }\nhk.f = func(x int) int { return x - c }\nhk.g = func() string { return s }\nr0 = h(a)\nr1 = k()", Focus: []string{"a", "c", "s"}},
+	{Family: "unlambda", Body: "hp := &hooks{f: func(x int) int { return x + b }}\nh := func(x int) int { return hp.f(x) }\nhp = &hooks{f: func(x int) int { return x * 3 }}\nr0 = h(a)"},
+	// range folding with signed / parenthesised bounds
+	{Family: "boolExprSimplify", Body: "r2 = ‹I:x› >= -1 && ‹I:x› < 0\nr2 = r2 != (‹I:y› > -3 && ‹I:y› < -1)\nr2 = r2 != (a < (1) || a > (1))\nr2 = r2 != (b >= (2) && b <= (2))", Focus: []string{"a", "b", "c"}},
+	{Family: "boolExprSimplify", Body: "r2 = ‹I:x› > -1 && ‹I:x› <= 0\nr2 = r2 != (a <= -2 || a > -1)\nr2 = r2 != (b < +1 || b >= +2)", Focus: []string{"a", "b", "c"}},
+	{Family: "boolExprSimplify", Body: "r2 = !p && tr(\"v\", !(a == b))\nr2 = r2 != (q || tr(\"w\", !!p))\nr2 = r2 != ((a > b || a == b) && xs != nil)", Focus: []string{"a", "b", "p"}},
 	// 12 defer
 	{Family: "deferUnlambda", Body: "defer func() { rec(1, \"x\") }()\nr0 = a"},
 	{Family: "deferUnlambda", Body: "x := a\ndefer func() { rec(x) }()\nx = b\nr0 = x"},
